@@ -15,12 +15,13 @@ pub struct C19;
 const ALLOWED: &[&str] = &[
     "rand", "heap_pad", "env_pad", "stack", "malloc_tun", "cwd_name", "rel", "file_name", "spelling", "argv0",
     "env_kind", "locale", "rust_backtrace", "stdin", "stdout", "stderr", "merged", "decoys", "clock", "pid",
+    "env_bytes", "sig", "umask", "fds", "script_mode", "uid",
 ];
 
 pub fn pick_program(ctx: &Ctx, rng: &mut Rng) -> programs::Picked {
     match rng.below(10) {
         0..=1 => programs::pick_w1(ctx, rng),
-        2 => programs::pick_w5(rng),
+        2 => if rng.chance(1, 2) { programs::pick_w5(rng) } else { programs::pick_w6(rng) },
         3..=4 => programs::pick_w4(ctx, rng),
         5..=6 => crate::w2::pick(rng, &crate::w2::GenOpts::default()),
         _ => crate::w3::pick(rng),
@@ -38,7 +39,7 @@ impl Property for C19 {
         if tier == "thorough" { 1_500_000 } else { 40_000 }
     }
     fn rule(&self) -> String {
-        "case = (program from W1 corpus | W5 supplementary scripts (function values, many-key objects, object rest, duplicate names) | W4 recombined corpus | W2 call-tree generator | W3 object histories) x (world: random subset of 18 dimensions changed against the reference world w0) x (plan of invisible I/O events: write/read chunking, EINTR bursts, short writes, ERANGE on getcwd, wrong size hint); oracle: transcript (stdout, stderr, exit status) equals the reference world's up to the echoed script path; a case is non-trivial when the world differs from w0 or an invisible event fired; distinct = distinct (program, world, plan) triples".to_string()
+        "case = (program from W1 corpus | W5 supplementary scripts (function values, many-key objects, object rest, duplicate names) | W6 generated scripts that fail while many similarly spelled variables/properties/functions/parameters are in reach | W4 recombined corpus | W2 call-tree generator | W3 object histories) x (world: random subset of 26 dimensions (hash keys, heap/env/stack layout, malloc tunables, cwd, script location, file name, path spelling, argv[0], environment kind, locale, RUST_BACKTRACE, stdin/stdout/stderr kinds, 2>&1, decoy files, clock, pid, non-Unicode environment entries, inherited signal dispositions/mask, umask, extra open fds, script permissions/mtime, uid) changed against the reference world w0) x (plan of invisible I/O events: write/read chunking, EINTR bursts, short writes, ERANGE on getcwd, wrong size hint); oracle: transcript (stdout, stderr, exit status) equals the reference world's up to the echoed script path; a case is non-trivial when the world differs from w0 or an invisible event fired; distinct = distinct (program, world, plan) triples".to_string()
     }
     fn assumptions(&self) -> Vec<String> {
         vec![
